@@ -143,6 +143,23 @@ pub const TEMPLATES: &[&str] = &[
     "for i = 1 , 2 do continue ; end",
     "do return a , b ; end",
     "local function f ( ) return ; end",
+    // names that end with a digit or an underscore next to `..` and `.`; numbers after `..`
+    "return a1 .. b , a_ .. b , a1 . b , a1 : m ( ) , a .. 2 , 1 .. 2 , a1 .. 2",
+    "return t [ t [ 1 ] ] , t [ [[a]] ] , t [ f { } ] , { [ t [ 1 ] ] = 1 }",
+    // a number too large for a double, kept as written, before a statement starting with a parenthese
+    "local x = 1e999\n( print ) ( x )",
+    "local x = - 1e999\n( print ) ( x )",
+    // type instantiation of a method call
+    "return a : b < < number > > ( 1 )",
+    "a . b : c < < number , string > > ( 1 , 's' )",
+    "a : b < < T > > 's'",
+    // commas of function types with a variadic argument, and of generic parameter lists with several packs
+    "local a : ( number , ... string ) -> ( ) = f",
+    "local a : ( x : number , y : string , ... any ) -> ... any = f",
+    "function f < T , U ... , V ... > ( ) end",
+    "type A < T , U , V ... , W ... > = ( T , U ) -> ( V ... )",
+    "local function f < T ... > ( ... : T ... ) : T ... end",
+    "local a : ( T ... ) -> ( U ... ) = f",
     // fewer values than variables
     "local a , b = ...",
     "const a , b = ...",
